@@ -11,7 +11,7 @@ RULE = ("for every message type of the corpus (matrix schema: every kind x label
         "value trees in three shapes (matrix = one field, one boundary class; random; maximal) are built through the "
         "constructor, through attribute assignment and by in-place mutation of lazily created containers / sub-messages, encoded, decoded (parse and FromString), re-encoded; the oracle "
         "compares neutral trees keyed by field number (values, oneof selection, None-ness, nested presence), the "
-        "library's own ==, and the bytes. distinct = distinct (schema, message type, value tree) triples; the empty "
+        "library's own ==, and the bytes. Population since widened: presence-only message values, freshly constructed empty messages, +-0.0 as distinct values, length-prefix boundary lengths, the matrix schema generated under typing.310 / pydantic_dataclasses, single-feature packages and multi-file extra sets; a directed shard adds recursive chains up to depth 120, one sub-message object referenced from several places and a valid decode after decodes that failed deep inside. distinct = distinct (schema, message type, value tree) triples; the empty "
         "tree is the only trivial case.")
 ASSUMPTIONS = [
     "float fields get float32-exact inputs; NaN compares as NaN; -0.0 is identified with +0.0 (implicit presence uses ==)",
